@@ -1224,7 +1224,7 @@ func (r *Runner) newestLocation(obj int) (int64, bool) {
 // (every way of consuming the data must fail with INTERNAL, also one that asks for a part the flipped byte is not in).
 func (r *Runner) corruptingRead(obj int) string {
 	mode := r.corruptMode
-	if !strings.Contains("srcwaq", mode) || len(mode) != 1 {
+	if !strings.Contains("srcwaqdD", mode) || len(mode) != 1 {
 		mode = "s"
 	}
 	kind, _ := consumeMode(r.st.BA.Get(context.Background(), r.Digest(obj)), mode, int(r.Digest(obj).GetSizeBytes()))
@@ -1260,8 +1260,13 @@ func (r *Runner) corruptHier(obj int) {
 	ck, lks := r.hierKeys(obj)
 	reply := r.m(fmt.Sprintf("hget.begin %d %d %s", id, ck, joinInts(lks)), "-")
 	if !touched {
-		// the read never touched the medium (the refresh reservation failed, ...): an ordinary Get
-		r.cmp(reply, kind, "hget")
+		// the read never touched the medium (the refresh reservation failed, a discarded read of a fresh object, ...):
+		// an ordinary Get
+		if kind != "abandoned" {
+			r.cmp(reply, kind, "hget")
+		} else if reply == "refresh" {
+			r.m(fmt.Sprintf("abort %d", id), "ok")
+		}
 		r.state()
 		return
 	}
@@ -1271,7 +1276,7 @@ func (r *Runner) corruptHier(obj int) {
 	} else {
 		r.m("hcorrupt "+joinInts(lks), "ok")
 	}
-	if kind != "err integrity" {
+	if kind != "err integrity" && kind != "abandoned" {
 		r.oracle("C08", "a read of corrupted data did not fail with INTERNAL", fmt.Sprintf("Get of object %d -> %s", obj, kind))
 	}
 	// the block that was actually read, from the device offset of the corrupted read
@@ -1336,7 +1341,7 @@ func (r *Runner) corrupt(obj int) {
 		} else {
 			r.m(fmt.Sprintf("corrupt %d", k), "ok")
 		}
-		if kind != "err integrity" && kind != "err unavailable" {
+		if kind != "err integrity" && kind != "err unavailable" && kind != "abandoned" {
 			r.oracle("C08", "a read of corrupted data did not fail with INTERNAL", fmt.Sprintf("Get of object %d -> %s", obj, kind))
 		}
 		r.corrupted = true
@@ -1349,10 +1354,15 @@ func (r *Runner) corrupt(obj int) {
 		r.state()
 		return
 	}
-	if kind == "not-found" || kind == "err unavailable" {
-		// the read never touched the medium (object gone, or the refresh reservation failed): an ordinary Get
+	if kind == "not-found" || kind == "err unavailable" || (kind == "abandoned" && !consumed) {
+		// the read never touched the medium (object gone, the refresh reservation failed, or a fresh object whose
+		// buffer was discarded unread): an ordinary Get
 		reply := r.m(fmt.Sprintf("fget.begin %d %d", id, k), "-")
-		r.cmp(reply, kind, "fget")
+		if kind != "abandoned" {
+			r.cmp(reply, kind, "fget")
+		} else if reply == "refresh" {
+			r.m(fmt.Sprintf("abort %d", id), "ok")
+		}
 		r.state()
 		return
 	}
@@ -1363,7 +1373,7 @@ func (r *Runner) corrupt(obj int) {
 	} else {
 		r.m(fmt.Sprintf("corrupt %d", k), "ok")
 	}
-	if kind != "err integrity" {
+	if kind != "err integrity" && kind != "abandoned" {
 		r.oracle("C08", "a read of corrupted data did not fail with INTERNAL", fmt.Sprintf("Get of object %d -> %s", obj, kind))
 	}
 	r.corrupted = true
